@@ -63,6 +63,14 @@ def doEdit (r : Req) (kind arg a1 a2 a3 a4 a5 a6 a7 tbl : String) : Option Req Ã
               match idn with
               | none => (some r, "bad-op")
               | some idnAns =>
+                -- the composite the theorems are about: urlsplit's reading + the re-assembly + the "/" glue, run as a whole
+                -- (urllib accepted the URL, so `_check_bracketed_host` did not raise: validBracketed answers true)
+                let Qd : PyLib := withRest { validBracketed := fun _ => true, normRest := fun _ r => r, idnaRt := fun _ => idnAns,
+                                             validHost := fun _ => a6 = "1", normAuth := norm }
+                if !(u.any (fun c => c â‰¥ 128)) && (pyLib Qd).split u â‰  some (sch, netloc, full) then
+                  (some r, "lib-miss split " ++ (match (pyLib Qd).split u with
+                    | some t => showStr t.1 ++ " " ++ showStr t.2.1 ++ " " ++ showStr t.2.2 | none => "err"))
+                else
                 let L := mkLib (fun _ => some (sch, netloc, full)) (fun _ => idnAns) (a6 = "1")
                 (match setUrl L r u with
                  | some r' => fin "ok" r'
